@@ -17,6 +17,8 @@ type VP8Frame struct {
 	Len  int    `json:"len"` // 0 = an empty (or, with Nil, nil) buffer: no frame, no packets, no picture id consumed
 	Seed uint64 `json:"seed"`
 	Nil  bool   `json:"nil,omitempty"`
+	// Toggle: the public EnablePictureID field is flipped before this call; the id stays the running frame counter
+	Toggle bool `json:"toggle,omitempty"`
 }
 
 type VP8PayCase struct {
@@ -24,6 +26,7 @@ type VP8PayCase struct {
 	FastForward int        `json:"fast_forward"` // 1-byte frames sent first to advance the running id
 	MTU         uint16     `json:"mtu"`
 	Frames      []VP8Frame `json:"frames"`
+	OneReceiver bool       `json:"one_receiver,omitempty"` // the whole stream is decoded by one VP8Packet, not a fresh one per packet
 }
 
 type VP8DescCase struct {
@@ -58,6 +61,7 @@ func vp8DescSize(id uint16, enabled bool) int {
 func checkC11Pay(r *run, c *VP8PayCase) (CaseInfo, error) {
 	var ci CaseInfo
 	p := &codecs.VP8Payloader{EnablePictureID: c.PictureID}
+	var stream codecs.VP8Packet
 	for i := 0; i < c.FastForward; i++ {
 		p.Payload(100, []byte{0x55})
 	}
@@ -65,7 +69,13 @@ func checkC11Pay(r *run, c *VP8PayCase) (CaseInfo, error) {
 	if c.PictureID {
 		ci.class("picture-id")
 	}
+	enabled := c.PictureID
 	for fi, f := range c.Frames {
+		if f.Toggle {
+			enabled = !enabled
+			p.EnablePictureID = enabled
+			ci.class("picture-id-mode-toggled-mid-stream")
+		}
 		if f.Len == 0 {
 			var empty []byte
 			if !f.Nil {
@@ -93,7 +103,11 @@ func checkC11Pay(r *run, c *VP8PayCase) (CaseInfo, error) {
 			if len(pk) > int(c.MTU) {
 				return ci, failf("%s: %d bytes exceed the MTU", what, len(pk))
 			}
-			var vp codecs.VP8Packet
+			vp := &codecs.VP8Packet{}
+			if c.OneReceiver {
+				vp = &stream
+				ci.class("stream-through-one-receiver")
+			}
 			payload, err := vp.Unmarshal(pk)
 			if err != nil {
 				return ci, failf("%s: VP8Packet rejects it: %v", what, err)
@@ -116,7 +130,7 @@ func checkC11Pay(r *run, c *VP8PayCase) (CaseInfo, error) {
 			if ref.PID != 0 || vp.PID != 0 {
 				return ci, failf("%s: partition index %d", what, ref.PID)
 			}
-			if c.PictureID {
+			if enabled {
 				switch {
 				case id == 0 && !ref.X:
 					if e := r.finding("F15-vp8-picture-id-0-omitted", "%s: picture ids are enabled but the frame with id 0 carries no picture id field", what); e != nil {
@@ -139,7 +153,7 @@ func checkC11Pay(r *run, c *VP8PayCase) (CaseInfo, error) {
 		if !bytes.Equal(cat, orig) {
 			return ci, failf("frame %d (%d bytes, mtu %d): payloads concatenate to %d bytes that differ from the frame", fi, f.Len, c.MTU, len(cat))
 		}
-		if len(pkts) >= 2 && c.PictureID {
+		if len(pkts) >= 2 && enabled {
 			ci.Nontrivial = true
 		}
 		if len(pkts) >= 2 {
@@ -147,7 +161,7 @@ func checkC11Pay(r *run, c *VP8PayCase) (CaseInfo, error) {
 		}
 		switch id {
 		case 0, 127, 128, 32767:
-			if c.PictureID {
+			if enabled {
 				ci.class(fmt.Sprintf("id=%d", id))
 				ci.Nontrivial = true
 			}
@@ -234,7 +248,7 @@ func checkC11Desc(r *run, c *VP8DescCase) (CaseInfo, error) {
 }
 
 func genVP8PayCase(t *rapid.T) *VP8PayCase {
-	c := &VP8PayCase{PictureID: genBool(t, "pid")}
+	c := &VP8PayCase{PictureID: genBool(t, "pid"), OneReceiver: genBool(t, "onereceiver")}
 	if ffm := rapid.IntRange(0, 19).Draw(t, "ffbig"); ffm <= 1 {
 		c.FastForward = rapid.SampledFrom([]int{32765, 32766, 32767, 32768, 32769}).Draw(t, "ff")
 	} else if ffm == 2 {
@@ -245,9 +259,10 @@ func genVP8PayCase(t *rapid.T) *VP8PayCase {
 		c.FastForward = rapid.SampledFrom([]int{0, 0, 0, 1, 2, 125, 126, 127, 128, 129, 5}).Draw(t, "ff")
 	}
 	nf := rapid.IntRange(1, 4).Draw(t, "nframes")
+	toggles := rapid.IntRange(0, 5).Draw(t, "toggles") == 0
 	maxDesc := 1
 	for i := 0; i < nf; i++ {
-		if s := vp8DescSize(uint16((c.FastForward+i)%32768), c.PictureID); s > maxDesc {
+		if s := vp8DescSize(uint16((c.FastForward+i)%32768), c.PictureID || toggles); s > maxDesc {
 			maxDesc = s
 		}
 	}
@@ -258,7 +273,7 @@ func genVP8PayCase(t *rapid.T) *VP8PayCase {
 		if int(c.MTU)-maxDesc < 4 && l > 400 {
 			l = l%400 + 1
 		}
-		c.Frames = append(c.Frames, VP8Frame{Len: l, Seed: rapid.Uint64().Draw(t, "seed")})
+		c.Frames = append(c.Frames, VP8Frame{Len: l, Seed: rapid.Uint64().Draw(t, "seed"), Toggle: toggles && genBool(t, "toggle")})
 	}
 	if rapid.IntRange(0, 5).Draw(t, "emptycalls") == 0 {
 		at := rapid.IntRange(0, len(c.Frames)).Draw(t, "emptyat")
@@ -298,7 +313,7 @@ func genVP8DescCase(t *rapid.T) *VP8DescCase {
 	return c
 }
 
-const ruleC11 = "payloader: picture ids on/off, running id advanced to {0,1,2,5,125-129,32765-32769} by fast-forwarding 1-byte frames, 1-4 frames of 1-3000 bytes (one case in 60: a frame of 65530-200000 bytes) biased to k*(MTU-descriptor)+-1, MTU > descriptor size biased to +1..+3; every packet is decoded by VP8Packet and by an independent RFC 7741 parser: payload concatenation = frame, S/IsPartitionHead first only, PID 0, <= MTU, id present in every packet (7-bit form < 128, 15-bit from 128), +1 per frame mod 2^15. descriptor: all X/I/L/T/K/M combinations with arbitrary field values and reserved bits from the reference builder, payload 0-40 bytes, truncations at every prefix 0-7; VP8Packet (receiver preloaded with other values) must read exactly the reference parse and reject cut descriptors; thorough adds all 2^16 first-two-octet combinations. Non-trivial = frame split into >=2 packets with ids on, id in {0,127,128,32767}, descriptor with >=2 optional fields or a truncation; distinct = FNV-64 of the JSON case"
+const ruleC11 = "payloader: picture ids on/off (one case in six flips the public EnablePictureID field between calls: the id stays the running frame counter), running id advanced to {0,1,2,5,125-129,32765-32769} by fast-forwarding 1-byte frames, 1-4 frames of 1-3000 bytes (one case in 60: a frame of 65530-200000 bytes) biased to k*(MTU-descriptor)+-1, MTU > descriptor size biased to +1..+3; every packet is decoded by VP8Packet (a fresh one per packet, or one for the whole stream) and by an independent RFC 7741 parser: payload concatenation = frame, S/IsPartitionHead first only, PID 0, <= MTU, id present in every packet (7-bit form < 128, 15-bit from 128), +1 per frame mod 2^15. descriptor: all X/I/L/T/K/M combinations with arbitrary field values and reserved bits from the reference builder, payload 0-40 bytes, truncations at every prefix 0-7; VP8Packet (receiver preloaded with other values) must read exactly the reference parse and reject cut descriptors; thorough adds all 2^16 first-two-octet combinations. Non-trivial = frame split into >=2 packets with ids on, id in {0,127,128,32767}, descriptor with >=2 optional fields or a truncation; distinct = FNV-64 of the JSON case"
 
 func TestC11(t *testing.T) {
 	r := begin(t, "C11", "exploration", ruleC11)
